@@ -160,8 +160,9 @@ impl JsonTruthy for Json {
                 if include_zero {
                     n.as_f64().is_some_and(|f| !f.is_nan())
                 } else {
-                    // there is no inifity in json/serde_json
-                    n.as_f64().is_some_and(f64::is_normal)
+                    // there is no inifity in json/serde_json; every non-zero
+                    // number, including subnormal ones, is truthy
+                    n.as_f64().is_some_and(|f| f != 0.0 && !f.is_nan())
                 }
             }
             Json::Null => false,
